@@ -429,10 +429,21 @@ def die_with_parent():
 SHARD_BYTES = int(os.environ.get('VERIF_SHARD_BYTES', 1200000))
 
 
-def eval_failing_multi(module_imports, cases_terms, checkers, name, shard=None, timeout=900, preamble="", case_type=None):
+SHARD_TIMEOUT = int(os.environ.get("VERIF_SHARD_TIMEOUT", 150))
+SINGLE_TIMEOUT = int(os.environ.get("VERIF_SINGLE_TIMEOUT", 45))
+INCONCLUSIVE = []          # (name, index) of cases whose model evaluation exceeded the time limit in this process
+
+
+def eval_failing_multi(module_imports, cases_terms, checkers, name, shard=None, timeout=None, preamble="", case_type=None,
+                       _single=False):
     """cases_terms: list of Coq terms (one per case); checkers: {label: Coq function case -> bool}
     (true = model agrees). Returns ({label: sorted failing indices}, error-text-or-None).
-    Sharded over all cores; each shard is one coqc run evaluating every checker with vm_compute."""
+    Sharded over all cores; each shard is one coqc run evaluating every checker with vm_compute.
+    A shard that exceeds its time limit is taken apart: its cases are evaluated one per coqc run; a single case that
+    still exceeds the limit (the history matchers are exponential in the worst case) is inconclusive - recorded in
+    INCONCLUSIVE and in the evidence, neither a disagreement nor an error; the direct oracle has judged it anyway."""
+    if timeout is None:
+        timeout = SINGLE_TIMEOUT if _single else SHARD_TIMEOUT
     if shard is None:
         shard = max(6, min(150, -(-len(cases_terms) // NPROC)))
     # shards are bounded by case count and by source size (coqc's memory grows with the size of the term it
@@ -479,7 +490,7 @@ def eval_failing_multi(module_imports, cases_terms, checkers, name, shard=None, 
                               stdout=subprocess.PIPE, stderr=subprocess.STDOUT, text=True, preexec_fn=die_with_parent)
         return (k, nm, pr, time.time())
 
-    retried, retry_queue = {}, []
+    retried, retry_queue, timed_out = {}, [], []
     while idx < len(shards) or running or retry_queue:
         while idx < len(shards) and len(running) < NPROC:
             running.append(start(idx))
@@ -489,9 +500,10 @@ def eval_failing_multi(module_imports, cases_terms, checkers, name, shard=None, 
             running.append(start(retry_queue.pop(0)))
         k, nm, pr, t0 = running.pop(0)
         try:
-            out, _ = pr.communicate(timeout=timeout)
+            out, _ = pr.communicate(timeout=max(1, timeout - (time.time() - t0)))
         except subprocess.TimeoutExpired:
             pr.kill()
+            pr.communicate()
             out = "[timeout]"
         if time.time() - t0 > 90:
             log("slow shard: %s (%d cases) took %.0fs" % (nm, len(shards[k]), time.time() - t0))
@@ -509,7 +521,10 @@ def eval_failing_multi(module_imports, cases_terms, checkers, name, shard=None, 
             os.remove(os.path.join(d, "." + nm + ".aux"))
         except FileNotFoundError:
             pass
-        if pr.returncode != 0 and (pr.returncode < 0 or "Out of memory" in out or out == "[timeout]") and retried.get(k, 0) < 2:
+        if out == "[timeout]":
+            timed_out.append(k)
+            continue
+        if pr.returncode != 0 and (pr.returncode < 0 or "Out of memory" in out) and retried.get(k, 0) < 2:
             # killed from outside (e.g. the machine ran out of memory while other jobs were running) or starved:
             # an infrastructure failure, not a verdict; run the shard again on its own once the others are done
             retried[k] = retried.get(k, 0) + 1
@@ -524,6 +539,21 @@ def eval_failing_multi(module_imports, cases_terms, checkers, name, shard=None, 
                 err = "cannot parse coqc output: " + out[-500:]
                 continue
             failing[lab] += [starts[k] + i for i in lst]
+    for k in timed_out:
+        if _single or len(shards[k]) == 1:
+            for i in range(len(shards[k])):
+                INCONCLUSIVE.append((name, starts[k] + i))
+            log("model evaluation of case %d of %s exceeded %ds: inconclusive" % (starts[k], name, timeout))
+            continue
+        sub, suberr = eval_failing_multi(module_imports, shards[k], checkers, "%s_t%d" % (name, k), shard=1, preamble=preamble,
+                                         case_type=case_type or infer_case_type(checkers, preamble), _single=True)
+        for lab, lst in sub.items():
+            failing[lab] += [starts[k] + i for i in lst]
+        # indices recorded by the sub-run are relative to the shard: rebase them
+        for j, (nm2, i2) in enumerate(INCONCLUSIVE):
+            if nm2 == "%s_t%d" % (name, k):
+                INCONCLUSIVE[j] = (name, starts[k] + i2)
+        err = err or suberr
     return {c: sorted(v) for c, v in failing.items()}, err
 
 
@@ -856,6 +886,7 @@ def _seq_differential_once(ctx, spec, exe, proofs_ok, tag, scale, with_corpus, e
     t = time.time()
     if spec.checkers:
         corr_fail, cerr = eval_failing_multi(spec.imports, terms, spec.checkers, "%s_%s" % (ctx.pid, tag), preamble=spec.preamble,
+                                             timeout=(900 if ctx.tier == "thorough" else None),
                                              case_type=getattr(spec, "case_type", None))
     else:
         corr_fail, cerr = {}, None
@@ -863,6 +894,10 @@ def _seq_differential_once(ctx, spec, exe, proofs_ok, tag, scale, with_corpus, e
         ctx.violation("%s:model-eval-error" % tag, "Coq evaluation of the model failed: " + cerr[:1500],
                       {"component": spec.component, "error": cerr}, failing_input=False)
     part["coq_eval_s"] = round(time.time() - t, 1)
+    ninc = sum(1 for nm, _ in INCONCLUSIVE if nm == "%s_%s" % (ctx.pid, tag))
+    if ninc:
+        part["model_eval_inconclusive_timeouts"] = ninc
+        ctx.notes.append("%s: the model evaluation of %d case(s) exceeded the time limit (inconclusive; the direct oracle judged them)" % (tag, ninc))
 
     def rerun(ops_case):
         cc = dict(ops_case)
